@@ -174,7 +174,11 @@ func runC15(c *core.Ctx) {
 	for _, name := range []string{"SignalServiceAdded", "SignalServiceRemoved"} {
 		n := 0
 		for _, fn := range handwritten {
-			for _, call := range callsNamed(fn, name) {
+			if _, _, isFwd := eventForwarder(c, fn, name); isFwd {
+				continue // a private helper that only emits: its call sites are the emission sites
+			}
+			for _, ev := range eventCalls(c, fn, name) {
+				call := ev.call
 				n++
 				ups, dels := mapWrites(fn, services)
 				legit := (name == "SignalServiceAdded" && len(ups) > 0) || (name == "SignalServiceRemoved" && len(dels) > 0)
@@ -451,7 +455,11 @@ func guardedUpdate(fn *ssa.Function, up *ssa.MapUpdate, services, nameF, sidF *t
 // through transition instruction tr, guarded by ok(lk), with (id, Name of the
 // looked-up entry) as arguments.
 func checkEvent(c *core.Ctx, fn *ssa.Function, name string, lk *ssa.Lookup, tr ssa.Instruction, nameF *types.Var) {
-	calls := callsNamed(fn, name)
+	evs := eventCalls(c, fn, name)
+	var calls []ssa.CallInstruction
+	for _, ev := range evs {
+		calls = append(calls, ev.call)
+	}
 	base := name + "@" + core.FuncKey(fn)
 	if len(calls) == 0 {
 		c.Fail("C15.events", base, tr.Pos(), "the transition is performed but "+name+" is never emitted")
@@ -464,10 +472,7 @@ func checkEvent(c *core.Ctx, fn *ssa.Function, name string, lk *ssa.Lookup, tr s
 			c.Fail("C15.events", key, call.Pos(), name+" can be emitted although the entry was not found (no transition happened)")
 			continue
 		}
-		args := call.Common().Args
-		if call.Common().IsInvoke() == false && len(args) > 0 {
-			args = args[1:]
-		}
+		args := evs[i].args
 		if len(args) < 2 || !core.SameValue(args[0], lk.Index) {
 			c.Fail("C15.events", key, call.Pos(), name+" is not emitted with the id of the entry that changed state")
 			continue
@@ -481,6 +486,11 @@ func checkEvent(c *core.Ctx, fn *ssa.Function, name string, lk *ssa.Lookup, tr s
 			cc, ok := x.(ssa.CallInstruction)
 			if !ok {
 				return false
+			}
+			for _, other := range calls {
+				if other == cc {
+					return true
+				}
 			}
 			_, m := core.InvokeName(cc)
 			return m == name
@@ -517,8 +527,8 @@ func checkEvent(c *core.Ctx, fn *ssa.Function, name string, lk *ssa.Lookup, tr s
 	}
 	// at least once on every success path through the transition, unless the helper is nil
 	recvIsNil := func(v ssa.Value) bool {
-		for _, call := range calls {
-			if call.Common().IsInvoke() && core.SameValue(v, call.Common().Value) {
+		for k, call := range calls {
+			if evs[k].direct && call.Common().IsInvoke() && core.SameValue(v, call.Common().Value) {
 				return true
 			}
 		}
@@ -592,7 +602,10 @@ func helperScansNames(h *ssa.Function, table ssa.Value, nameF *types.Var, bi int
 					if r.Has(ret) || ret.Block() == b2.Succs[eqEdge] {
 						n++
 						if bv, isConst := core.ConstBool(core.RetVal(ret, bi)); !isConst || !bv {
-							okTrue = false
+							// a flag set in the match branch and false otherwise (found = true; break)
+							if !flagSetFrom(core.RetVal(ret, bi), b2.Succs[eqEdge], r) {
+								okTrue = false
+							}
 						}
 					}
 				}
@@ -604,4 +617,131 @@ func helperScansNames(h *ssa.Function, table ssa.Value, nameF *types.Var, bi int
 		}
 	}
 	return false
+}
+
+// eventCall: an emission of a directory event in fn: the call of the signal
+// helper itself, or the call of a private helper of the package that does
+// nothing but emit it with its own parameters (notifyAdded(id, name)).
+type eventCall struct {
+	call   ssa.CallInstruction
+	args   []ssa.Value // id, name as seen in fn
+	direct bool
+}
+
+func eventCalls(c *core.Ctx, fn *ssa.Function, name string) []eventCall {
+	var out []eventCall
+	for _, call := range core.Calls(fn) {
+		cc := call.Common()
+		if cc.IsInvoke() {
+			if cc.Method.Name() == name {
+				out = append(out, eventCall{call, cc.Args, true})
+			}
+			continue
+		}
+		f := cc.StaticCallee()
+		if f == nil {
+			continue
+		}
+		if f.Name() == name {
+			args := cc.Args
+			if len(args) > 0 {
+				args = args[1:]
+			}
+			out = append(out, eventCall{call, args, true})
+			continue
+		}
+		if idI, nameI, ok := eventForwarder(c, f, name); ok && idI < len(cc.Args) && nameI < len(cc.Args) {
+			out = append(out, eventCall{call, []ssa.Value{cc.Args[idI], cc.Args[nameI]}, false})
+		}
+	}
+	return out
+}
+
+// eventForwarder: h is a private helper that touches no registry state and
+// emits event name exactly once on every path (unless no signal helper is
+// installed) with two of its own parameters as id and name; returns their
+// parameter indexes.
+func eventForwarder(c *core.Ctx, h *ssa.Function, name string) (int, int, bool) {
+	if h == nil || !isPrivateHelper(c, h) || len(h.Blocks) == 0 {
+		return 0, 0, false
+	}
+	calls := callsNamed(h, name)
+	if len(calls) != 1 {
+		return 0, 0, false
+	}
+	call := calls[0]
+	args := call.Common().Args
+	if !call.Common().IsInvoke() && len(args) > 0 {
+		args = args[1:]
+	}
+	if len(args) < 2 {
+		return 0, 0, false
+	}
+	idx := func(v ssa.Value) int {
+		p, ok := core.Canon(v).(*ssa.Parameter)
+		if !ok {
+			return -1
+		}
+		for i, hp := range h.Params {
+			if hp == p {
+				return i
+			}
+		}
+		return -1
+	}
+	idI, nameI := idx(args[0]), idx(args[1])
+	if idI < 0 || nameI < 0 {
+		return 0, 0, false
+	}
+	if loopHeaderOf(call.(ssa.Instruction)) != nil {
+		return 0, 0, false
+	}
+	// emitted on every path, unless the signal helper is nil
+	recvIsNil := func(v ssa.Value) bool {
+		return call.Common().IsInvoke() && core.SameValue(v, call.Common().Value)
+	}
+	r := core.ReachEntry(h, func(x ssa.Instruction) bool { return x == call.(ssa.Instruction) }, core.CutEstablishing(core.Eq(recvIsNil, core.IsNilConst)))
+	for _, ret := range core.Returns(h) {
+		if r.Has(ret) {
+			return 0, 0, false
+		}
+	}
+	return idI, nameI, true
+}
+
+// flagSetFrom: v is a boolean variable that is true when the return is reached
+// through block from (where it is set) and false on every other way in.
+func flagSetFrom(v ssa.Value, from *ssa.BasicBlock, r *core.Reach) bool {
+	seen := map[*ssa.Phi]bool{}
+	var walk func(v ssa.Value) (anyTrue bool, ok bool)
+	walk = func(v ssa.Value) (bool, bool) {
+		p, isPhi := v.(*ssa.Phi)
+		if !isPhi {
+			return false, false
+		}
+		if seen[p] {
+			return false, true
+		}
+		seen[p] = true
+		anyTrue := false
+		for k, e := range p.Edges {
+			pred := p.Block().Preds[k]
+			reached := pred == from || (len(pred.Instrs) > 0 && r.Has(pred.Instrs[len(pred.Instrs)-1]))
+			if bv, isConst := core.ConstBool(e); isConst {
+				if bv != reached {
+					return false, false
+				}
+				anyTrue = anyTrue || bv
+				continue
+			}
+			t, ok := walk(e)
+			if !ok {
+				return false, false
+			}
+			anyTrue = anyTrue || t
+		}
+		return anyTrue, true
+	}
+	t, ok := walk(v)
+	return ok && t
 }
